@@ -224,7 +224,23 @@ def ret_defs(prog, body):
     """Every definition of the return place `_0`, classified."""
     idx = prog.idx(body)
     out = []
-    for kind, blk, i, d, obj in idx.defs.get(0, []):
+    # the return place, and the temporaries that are only ever moved into it (what a looked-through helper's `return x` leaves
+    # behind: `_r = x; ... ; _0 = move _r` in one shared block): the definitions of such a temporary are the return points
+    chain, work, defs = {0}, [0], []
+    while work:
+        r = work.pop()
+        for kind, blk, i, d, obj in idx.defs.get(r, []):
+            if not d and kind == "assign" and obj.rv.k == "use" and obj.rv.ops and obj.rv.ops[0].place is not None \
+                    and not obj.rv.ops[0].place.proj and obj.rv.ops[0].k == "move":
+                L = obj.rv.ops[0].place.local
+                if L > body.arg_count and len([1 for x in idx.defs.get(L, []) if not x[3]]) > 1 and obj.j.get("inlined_ret"):
+                    if L not in chain:
+                        chain.add(L)
+                        work.append(L)
+                    continue
+            if not d:
+                defs.append((kind, blk, i, d, obj))
+    for kind, blk, i, d, obj in defs:
         if kind == "assign":
             rv = obj.rv
             if rv.k == "agg":
